@@ -562,6 +562,47 @@ func c10Scenarios(tier string) []*world.Scenario {
 		}
 		out = append(out, sc)
 	}
+	// replicas present and replica reads enabled: a pipeline of WRITES (DEL, SET, MSET, EXPIRE-like) to one master must still
+	// arrive in order (a write mistaken for a read would detour through a replica and arrive late)
+	{
+		mk := func(name string, reqs []Req, rds []rd) {
+			sc := c10Scenario(name, [][]Req{reqs}, [][]rd{rds}, b)
+			sc.Nodes = T3()
+			sc.CheckOwner = true
+			sc.Family = "writes-with-replicas"
+			out = append(out, sc)
+		}
+		del := func(k string, n int) Req {
+			r := DelReq(k)
+			r.Expect = []byte(fmt.Sprintf(":%d\r\n", n))
+			return r
+		}
+		mk("writes-with-replicas/del-set-del-set",
+			[]Req{del(a0, 0), set(a0, "x"), del(a1, 0), set(a1, "y"), del(a2, 0), set(a2, "z")},
+			[]rd{{"del", []string{a0}, ""}, {"set", []string{a0}, "x"}, {"del", []string{a1}, ""}, {"set", []string{a1}, "y"}, {"del", []string{a2}, ""}, {"set", []string{a2}, "z"}})
+		for _, cmd := range []string{"del", "incr", "append", "lpush", "expire", "setnx", "hset", "sadd", "zadd", "getset", "persist"} {
+			var first Req
+			switch cmd {
+			case "del":
+				first = del(a0, 0)
+			default:
+				args := []string{cmd, a0}
+				switch cmd {
+				case "append", "lpush", "setnx", "sadd", "getset":
+					args = append(args, "v")
+				case "expire":
+					args = append(args, "100")
+				case "hset":
+					args = append(args, "f", "v")
+				case "zadd":
+					args = append(args, "1", "m")
+				}
+				first = Req{Kind: strings.ToUpper(cmd), Bytes: world.Cmd(args...)}
+			}
+			mk("writes-with-replicas/"+cmd+"-then-set", []Req{first, set(a0, "w"), set(a1, "u")},
+				[]rd{{cmd, []string{a0}, ""}, {"set", []string{a0}, "w"}, {"set", []string{a1}, "u"}})
+		}
+	}
 	// more fragments for one node than one vectored write takes (1024 slices), queued by a single loop round
 	{
 		sc := BigBatch("C10", 1500, false, 1)
